@@ -60,7 +60,7 @@ class C01(PropCheck):
             run.search_stats['evaluations'] += 1
             out = pm_corr.real_line(doc)
             what = pm_corr.conservation_violation(doc, out)
-            if what:
+            if what and out != pm_corr.model_line(self, doc):   # only inputs on which the code left the model
                 small = pm.shrink(doc, lambda c: bool(pm_corr.conservation_violation(c, pm_corr.real_line(c))), 150)
                 found.append({'what': what, 'input': {'doc': pm_corr.doc_json(small), 'html': pm.doc_html(small)},
                               'signature': 'pm-conservation'})
